@@ -1,6 +1,6 @@
 //! Small-scope document generators for BTOR2.
 
-use mc_core::generic::{dedup_docs, single_edit_neighbours, token_sequences, Doc, MARKERS};
+use mc_core::generic::{byte_sweep, dedup_docs, single_edit_neighbours, token_sequences, Doc, MARKERS};
 use mc_core::Tier;
 
 pub const UNARY: [&str; 7] = ["not", "inc", "dec", "neg", "redand", "redor", "redxor"];
@@ -43,6 +43,7 @@ pub fn corpus() -> Vec<Doc> {
     let d = |n: &str, b: &[u8]| Doc::new(format!("btor2:{n}"), b.to_vec());
     vec![
         d("empty", b""),
+        d("tiny", b"1 sort bitvec 8\n2 input 1 x\n"),
         d("small", b"1 sort bitvec 8\n2 input 1 x\n3 add 1 2 2 ; sum\n4 bad 3\n"),
         d("comments", b"; first\n;\n1 sort bitvec 1 ;trailing\n\n  \n2 zero 1 z ;; double\n; last without newline"),
         d("symbols", b"1 sort bitvec 1\n2 input 1 a;b\n3 state 1 \xff\xfe\n4 constd 1 -\n"),
@@ -78,6 +79,14 @@ pub fn inputs_seq(tier: Tier, seq_len: usize) -> Inputs {
             continue;
         }
         nb.extend(single_edit_neighbours(d, &MARKERS));
+    }
+    // every byte value at every position of the short corpus documents
+    for d in &corpus {
+        let base = d.name.rsplit(':').next().unwrap_or("");
+        let quick_base = matches!(base, "std" | "assignment-first" | "and" | "tiny");
+        if (tier == Tier::Quick && quick_base) || (tier == Tier::Thorough && (8..=60).contains(&d.bytes.len())) {
+            nb.extend(byte_sweep(d));
+        }
     }
     let sequences = dedup_docs(token_sequences(&tokens(), seq_len));
     // all short strings over a 10-symbol alphabet (arbitrary inputs)
